@@ -149,7 +149,17 @@ def run_history(calls):
 PARTS = ["a", "b", "c", "d", "0", "ctrl", "x", "y", 0, 1, 2, 3]
 
 
-def random_name(r):
+def random_name(r, used=None):
+    """fresh names, and - to make collisions likely - names equal to, prefixes of or extensions of
+    names already used somewhere in this history"""
+    if used and r.random() < 0.35:
+        base = r.choice(used)
+        x = r.random()
+        if x < 0.4:
+            return base
+        if x < 0.7 and len(base) > 1:
+            return base[:r.randint(1, len(base) - 1)]
+        return base + (r.choice(PARTS),)
     return tuple(r.choice(PARTS) for _ in range(r.choice([1, 1, 2, 2, 3])))
 
 
@@ -160,6 +170,7 @@ def random_history(r, length):
     used_win = set()     # map indices already used as a window
     frozen = set()       # map indices known to be frozen
     nres = [0]
+    names = []
     base_dw = r.choice([8, 16, 32])
 
     def do(c):
@@ -169,12 +180,16 @@ def random_history(r, length):
 
     def new_map(root=False):
         if root:
-            aw, dw = r.choice([3, 4, 5, 6]), base_dw
+            aw, dw = r.choice([4, 5, 6, 6]), base_dw
         else:
             aw = r.choice([1, 1, 2, 2, 3, 4])
             dw = r.choice([base_dw, base_dw, base_dw // 2, base_dw // 4, 8]) if base_dw > 8 else 8
             dw = max(dw, 1)
-        do({"call": "new", "aw": aw, "dw": dw, "al": r.choice([0, 0, 0, 1, 2])})
+        al = r.choice([0, 0, 0, 1, 2])
+        if not root and dw < base_dw and r.random() < 0.8:
+            al = max(al, (base_dw // dw).bit_length() - 1)     # admits a dense window into a wider map
+            aw = max(aw, al + r.randint(0, 2))
+        do({"call": "new", "aw": aw, "dw": dw, "al": al})
 
     new_map(root=True)
     for _ in range(r.randint(1, 4)):
@@ -203,7 +218,9 @@ def random_history(r, length):
                 addr = r.randrange(1 << mm.addr_width)
                 if r.random() < 0.6:
                     addr &= ~((1 << mm.alignment) - 1)
-            c = do({"call": "add_resource", "m": m, "res": rid, "name": tag(random_name(r)),
+            nm_ = random_name(r, names)
+            names.append(nm_)
+            c = do({"call": "add_resource", "m": m, "res": rid, "name": tag(nm_),
                     "size": r.choice([0, 1, 1, 2, 3, 4, 5, 8]), "addr": addr,
                     "alignment": r.choice([-1, -1, -1, 0, 1, 2, 3]), "bad": bad})
             if c["ok"]:
@@ -215,9 +232,22 @@ def random_history(r, length):
                          any(ex.mid[id(w)] == k for w, _, _ in ex.maps[m - 1].windows())] or cands
             if not cands:
                 continue
+            # deeper trees: prefer a parent that is not the root and a child that already holds something
+            if r.random() < 0.6:
+                deep = [k for k in live if k != 1 and k not in used_win]
+                if deep:
+                    m = r.choice(deep)
+                    cands = [k for k in cands if k != m] or cands
+            full = [k for k in cands if list(ex.maps[k - 1].resources()) or list(ex.maps[k - 1].windows())]
+            if full and r.random() < 0.7:
+                cands = full
             w = r.choice(cands)
+            if w == m:
+                continue
             wm, pm = ex.maps[w - 1], ex.maps[m - 1]
             sparse = r.choice(["none", "none", "true", "false", "false"])
+            if wm.data_width != pm.data_width:
+                sparse = r.choice(["true", "false", "false", "false", "none"])
             if wm.data_width != pm.data_width and sparse != "true" and list(wm.windows()):
                 sparse = "true"      # C03's domain: dense windows of ratio > 1 only over leaf maps
             addr = -1
@@ -226,7 +256,7 @@ def random_history(r, length):
                 if r.random() < 0.8:
                     addr &= ~((1 << min(wm.addr_width, pm.addr_width)) - 1)
             c = do({"call": "add_window", "m": m, "w": w,
-                    "name": tag(r.choice([None, None, random_name(r)])), "addr": addr,
+                    "name": tag(r.choice([None, None, random_name(r, names)])), "addr": addr,
                     "sparse": sparse,
                     "bad": "not_map" if r.random() < 0.03 else "none"})
             if c["ok"]:
@@ -246,6 +276,49 @@ def random_history(r, length):
     return steps
 
 
+def structured_history(r):
+    """A deliberately built tree: a leaf map densely filled with resources, attached through a dense
+    (ratio 2/4/8) or sparse window that does NOT start at a multiple of its span (a resource or an
+    align_to in front of it), optionally one anonymous or named level deeper; then every query."""
+    ex = Executor()
+    steps = []
+
+    def do(c):
+        i, o = ex.apply(c)
+        steps.append({"i": i, "o": o})
+        return i
+    ratio = r.choice([1, 2, 2, 4, 4, 8])
+    pdw = r.choice([8 * ratio, 16 * ratio]) if ratio * 16 <= 64 else 8 * ratio
+    lal = ratio.bit_length() - 1
+    law = r.randint(max(2, lal + 1), 5)
+    do({"call": "new", "aw": 7, "dw": pdw, "al": 0})                       # 1: root
+    do({"call": "new", "aw": law + 1, "dw": pdw, "al": r.choice([0, 1])})   # 2: optional middle level
+    do({"call": "new", "aw": law, "dw": pdw // ratio, "al": lal})           # 3: leaf
+    rid = 0
+    for _ in range(r.randint(2, 6)):
+        rid += 1
+        do({"call": "add_resource", "m": 3, "res": rid, "name": tag((f"r{rid}",)), "size": r.choice([1, 2, 3, 4]),
+            "addr": r.choice([-1, -1, r.randrange(0, 1 << law, 1 << lal)]), "alignment": -1, "bad": "none"})
+    sparse = "true" if (ratio > 1 and r.random() < 0.25) else ("false" if ratio > 1 else "none")
+    via_middle = r.random() < 0.5
+    parent = 2 if via_middle else 1
+    rid += 1
+    do({"call": "add_resource", "m": parent, "res": rid, "name": tag(("front",)), "size": r.choice([1, 2, 3, 5]),
+        "addr": -1, "alignment": -1, "bad": "none"})
+    if r.random() < 0.3:
+        do({"call": "align_to", "m": parent, "al": r.randint(0, 3)})
+    do({"call": "add_window", "m": parent, "w": 3, "name": tag(r.choice([None, ("leaf",)])),
+        "addr": r.choice([-1, -1, -1, r.randrange(0, 1 << (law - 1), 1 << max(lal, 0))]), "sparse": sparse, "bad": "none"})
+    if via_middle:
+        rid += 1
+        do({"call": "add_resource", "m": 1, "res": rid, "name": tag(("top",)), "size": r.choice([1, 3, 6]),
+            "addr": -1, "alignment": -1, "bad": "none"})
+        do({"call": "add_window", "m": 1, "w": 2, "name": tag(r.choice([None, ("mid",)])), "addr": -1,
+            "sparse": "none", "bad": "none"})
+    do({"call": "lookup"})
+    return steps
+
+
 # ---------------------------------------------------------------------------------------------
 # the checks
 # ---------------------------------------------------------------------------------------------
@@ -257,6 +330,7 @@ MC = """SPECIFICATION Spec
 CONSTANTS MaxItems = {items}
   Export = FALSE
   RootAls = {als}
+  Rich = {rich}
 CONSTRAINT Bound
 ACTION_CONSTRAINT Props
 CHECK_DEADLOCK FALSE
@@ -273,6 +347,8 @@ def _hist_job(job):
     kind, arg = job
     if kind == "random":
         seed, length = arg
+        if seed % 4 == 3:
+            return {"cfg": {"seed": seed, "structured": 1}, "steps": structured_history(rng("mm-struct", seed))}
         return {"cfg": {"seed": seed}, "steps": random_history(rng("mm-hist", seed), length)}
     key, calls = arg
     return {"cfg": {"key": key}, "steps": run_history(calls)}
@@ -314,23 +390,25 @@ def main(prop, tier):
     run.assumptions += ["align_to(0) is used as a behaviourally neutral probe of the placement cursor",
                         "each resource object is added to at most one map of a tree (C03's 'exactly once')"]
     # ---- leg A
-    items = 3 if thorough and prop == "C02" else 2
+    # C02: the full numeric product, shallow trees; C03/C18: lean alphabet, trees two windows deep
+    rich = "TRUE" if prop == "C02" else "FALSE"
+    items = (3 if thorough else 2) if prop == "C02" else (4 if thorough else 3)
     als = "{0, 1}" if prop == "C02" or thorough else "{0}"
-    cfg = MC.format(items=items, als=als) + "VIEW View\n" + "".join(f"INVARIANT {i}\n" for i in INVS[prop])
+    cfg = MC.format(items=items, als=als, rich=rich) + "VIEW View\n" + "".join(f"INVARIANT {i}\n" for i in INVS[prop])
     res = tlc.run("MemoryMap_MC", cfg, timeout=3000)
     tlc.require_ok(res, "MemoryMap_MC")
     if not res.ok:
         raise common.MachineryError("MemoryMap specification violates its own properties: "
                                     + str(res.assert_payload or res.errors) + res.raw[-2000:])
-    run.add_tlc(res, f"MemoryMap_MC MaxItems={items} RootAls={als}: {', '.join(INVS[prop])} + per-call assertions")
-    w = tlc.run("MemoryMap_MC", MC.format(items=2, als="{0}") + f"VIEW View\nINVARIANT {WITNESS[prop]}\n",
+    run.add_tlc(res, f"MemoryMap_MC MaxItems={items} RootAls={als} Rich={rich}: {', '.join(INVS[prop])} + per-call assertions")
+    w = tlc.run("MemoryMap_MC", MC.format(items=3, als="{0}", rich="FALSE") + f"VIEW View\nINVARIANT {WITNESS[prop]}\n",
                 timeout=900)
     if w.violated != WITNESS[prop]:
         raise common.MachineryError(f"vacuity witness {WITNESS[prop]} was not refuted")
     run.cov["vacuity_witnesses_refuted"] = [WITNESS[prop]]
     # ---- leg B: TLC-generated behaviours replayed on real objects
     num, depth = (400, 14) if thorough else (120, 10)
-    sres, behs = tlc.simulate_behaviours("MemoryMap_MC", MC.format(items=4, als="{0, 1}"), num=num, depth=depth,
+    sres, behs = tlc.simulate_behaviours("MemoryMap_MC", MC.format(items=5, als="{0, 1}", rich="FALSE"), num=num, depth=depth,
                                          wanted=("key", "lastin"), seed=common.seed() + 11)
     run.add_tlc(sres, "MemoryMap_MC -simulate (behaviours for replay)")
     jobs = []
@@ -338,12 +416,12 @@ def main(prop, tier):
         if len(b) < 2:
             continue
         al = b[0]["key"]
-        prelude = [{"call": "new", "aw": 3, "dw": 16, "al": al}, {"call": "new", "aw": 1, "dw": 16, "al": 0},
-                   {"call": "new", "aw": 2, "dw": 8, "al": 1}]
+        prelude = [{"call": "new", "aw": 3, "dw": 16, "al": al}, {"call": "new", "aw": 2, "dw": 16, "al": 0},
+                   {"call": "new", "aw": 1, "dw": 8, "al": 1}]
         calls = prelude + [s["lastin"] for s in b[1:]] + [{"call": "lookup"}]
         jobs.append(("replay", (al, calls)))
     # ---- leg C: random histories
-    n, length = (1500, 60) if thorough else (300, 40)
+    n, length = (1600, 60) if thorough else (400, 40)
     base = common.seed() * 100000
     jobs += [("random", (base + k, length)) for k in range(n)]
     traces = pmap(_hist_job, jobs)
